@@ -133,6 +133,10 @@ def analyse(data, text, wanted):
                                "function": c.get("function", "")})
             elif st.lower() in ("undetermined", "error"):
                 undet.append({"description": desc, "where": where})
+            elif st.lower() not in ("success", "unreachable", "satisfied", "unsatisfiable", "unsatisfied"):
+                # any other status (e.g. an unsupported construct that is reachable) is a failed check of its own kind
+                failed.append({"description": f"[{st}] {desc}", "category": cat, "where": where,
+                               "function": c.get("function", "")})
         res[short] = {
             "id": hid, "status": r.get("status"), "duration_ms": r.get("duration_ms"),
             "n_checks": len(checks), "failed": failed, "covers_sat": covers_sat,
